@@ -68,6 +68,24 @@ def gen_cases(ctx, n_scale=1.0):
             except KeyError:
                 continue
             cases.append({"kind": "dist", "fn": name, "args": args, "lattice": lattice})
+            if k % 3 == 2:
+                # the same call with the first point-like argument moved ONTO THE AXIS of the other primitive (centre +
+                # h * normal, or the z axis of its pose): reformulations that cancel there (sqrt of a difference of
+                # squares, division by an in-plane length) raise in one engine and return NaN in the other
+                nm = [n.rstrip("12") for n in names[:len(args)]]
+                pi = next((i for i, n in enumerate(nm) if n in ("point", "line_point", "segment_start")), None)
+                ax = None
+                if "center" in nm and "normal" in nm:
+                    ax = (args[nm.index("center")], args[nm.index("normal")])
+                else:
+                    for key in ("cylinder2origin", "ellipsoid2origin", "box2origin"):
+                        if key in nm:
+                            A = args[nm.index(key)]
+                            ax = (A[:3, 3], A[:3, 2])
+                if pi is not None and ax is not None:
+                    args2 = [np.array(a, copy=True) if isinstance(a, np.ndarray) else a for a in args]
+                    args2[pi] = np.ascontiguousarray(ax[0] + rng.choice([0.5, -1.25, 2.0]) * ax[1])
+                    cases.append({"kind": "dist", "fn": name, "args": args2, "lattice": lattice, "on_axis": True})
     # 2. colliders: support / aabb / center / first_vertex
     for k in range(int(ctx.budget(80, 800) * n_scale)):
         lattice = (k % 2 == 0)
@@ -105,6 +123,15 @@ def gen_cases(ctx, n_scale=1.0):
         cases.append({"kind": "contain", "shape": shape, "pose": scenes.pose(rng, lattice, 1.0),
                       "sizes": [scenes.size_scalar(rng, lattice) for _ in range(3)], "points": pts,
                       "lattice": lattice})
+    # 4b. empty and one-element containers for the array-taking kernels
+    for k in range(int(ctx.budget(12, 60) * n_scale)):
+        n1, n2 = [(0, 3), (3, 0), (0, 0), (1, 1), (4, 5), (1, 0)][k % 6]
+        mk = lambda n: np.array([c05_box(rng) for _ in range(n)], dtype=float).reshape(n, 3, 2)  # noqa
+        cases.append({"kind": "aabbsets", "a": mk(n1), "b": mk(n2), "lattice": True})
+        shape = ["sphere", "capsule", "ellipsoid", "disk", "cone", "cylinder", "box"][k % 7]
+        cases.append({"kind": "contain", "shape": shape, "pose": scenes.pose(rng, True, 1.0),
+                      "sizes": [scenes.size_scalar(rng, True) for _ in range(3)], "points": np.zeros((0, 3)),
+                      "lattice": True})
     # 5. AABB tree histories (incl. empty trees) — generator of C05
     import props.c05 as c05
     hists = [ops for _, ops in c05.corpus()]
@@ -139,6 +166,11 @@ def gen_cases(ctx, n_scale=1.0):
 
 
 # ------------------------------------------------------------------ execution (runs in BOTH engines)
+def c05_box(rng):
+    lo = [rng.choice([-2, -1, -0.5, 0, 0.5, 1]) for _ in range(3)]
+    return [[lo[i], lo[i] + rng.choice([0.0, 0.5, 1, 2])] for i in range(3)]
+
+
 def _ser(x):
     if x is None:
         return None
@@ -240,6 +272,11 @@ def _run(case):
         else:
             r = ct.points_in_box(P, A, np.array(s))
         return _ser(np.asarray(r))
+    if k == "aabbsets":
+        from distance3d.aabb_tree import all_aabbs_overlap
+        i1, i2, pairs = all_aabbs_overlap(case["a"], case["b"])
+        return _ser({"i1": sorted(int(i) for i in i1), "i2": sorted(int(i) for i in i2),
+                     "pairs": sorted((int(p[0]), int(p[1])) for p in pairs)})
     if k == "aabbtree":
         import props.c05 as c05
         res = c05.impl_run(case["ops"])
@@ -428,6 +465,10 @@ def case_from_json(j):
             out[k] = scenes.spec_from_json(v)
         elif k == "args":
             out[k] = [np.array(a, dtype=float) if isinstance(a, list) else a for a in v]
+        elif k in ("a", "b") and j.get("kind") == "aabbsets":
+            out[k] = np.array(v, dtype=float).reshape(-1, 3, 2)
+        elif k == "points" and len(v) == 0:
+            out[k] = np.zeros((0, 3))
         elif k in ("dir", "pose", "points", "hp", "v", "n", "move_to"):
             out[k] = np.array(v, dtype=float)
         elif k == "dirs":
